@@ -587,8 +587,15 @@ func gmMeta(r *rng, key string) []byte {
 	}
 	switch key {
 	case "TSMP":
+		if r.chance(1, 10) {
+			return klv(key, 'L', 4, 1, beInts(4, 0)) // no samples yet: a total like any other
+		}
 		return klv(key, 'L', 4, 1, beInts(4, int64(r.intn(100000))))
 	case "TMPC":
+		if r.chance(1, 8) {
+			// exactly 0.0 degrees (and -0.0): a temperature like any other
+			return klv(key, 'f', 4, 1, beInts(4, int64(pick(r, []uint32{0, 0, 0x80000000}))))
+		}
 		return klv(key, 'f', 4, 1, beInts(4, int64(math.Float32bits(float32(r.intn(900))/10))))
 	case "GPSF":
 		if r.chance(1, 40) {
